@@ -132,3 +132,34 @@ func vEffects() []string { return nil }
 func vIsConcrete(v interface{}) bool { return true }
 
 func vSetStepBudget(n int) {}
+
+// vTier is 0 in the quick tier and 1 in the thorough tier.
+func vTier() int {
+	if os.Getenv("VERIF_TIER") == "thorough" {
+		return 1
+	}
+	return 0
+}
+
+// ---- helpers shared by harnesses ----
+
+// vForm builds the list (head args...) with head a symbol.
+func vForm(env *Zlisp, head string, args ...Sexp) Sexp {
+	return MakeList(append([]Sexp{env.MakeSymbol(head)}, args...))
+}
+
+// vEval evaluates one form through the real generator and VM.  An escaping
+// Go panic is turned into (nil, nil, true).
+func vEval(env *Zlisp, form Sexp) (res Sexp, err error, panicked bool) {
+	defer func() {
+		if r := recover(); r != nil {
+			switch r.(type) {
+			case vAssumeFailed, vDoneSignal:
+				panic(r)
+			}
+			panicked = true
+		}
+	}()
+	res, err = env.EvalExpressions([]Sexp{form})
+	return
+}
